@@ -279,6 +279,53 @@ fn builder_setters_touch_only_their_field() {
 }
 
 
+/// callback types that rely on the *provided* methods of CacheCallback: a refused value reaches on_exit (not on_evict); a
+/// value swept by the policy reaches on_exit (not on_reject)
+struct OnlyExitEvict(Arc<StdMutex<Vec<Ev>>>);
+impl CB_ for OnlyExitEvict {
+    type Value = u64;
+    fn on_exit(&self, v: Option<u64>) { self.0.lock().unwrap().push(Ev::Exit(v)); }
+    fn on_evict(&self, i: CItem<u64>) { self.0.lock().unwrap().push(Ev::Evict(i.index, i.val, i.cost)); }
+}
+struct OnlyExitReject(Arc<StdMutex<Vec<Ev>>>);
+impl CB_ for OnlyExitReject {
+    type Value = u64;
+    fn on_exit(&self, v: Option<u64>) { self.0.lock().unwrap().push(Ev::Exit(v)); }
+    fn on_reject(&self, i: CItem<u64>) { self.0.lock().unwrap().push(Ev::Reject(i.index, i.val, i.cost)); }
+}
+
+#[test]
+fn provided_callback_methods_route_to_on_exit() {
+    if !only("provided_callback_methods_route_to_on_exit") { return; }
+    guarded("provided_callback_methods_route_to_on_exit", || {
+        // refusal (cost above max_cost) with a callback that overrides on_exit + on_evict only
+        let ev = Arc::new(StdMutex::new(Vec::new()));
+        let c: Cache<u64, u64, TransparentKeyBuilder<u64>, crate::DefaultCoster<u64>, crate::DefaultUpdateValidator<u64>, OnlyExitEvict> = Cache::builder(200, 10)
+            .set_key_builder(TransparentKeyBuilder::<u64>::default()).set_callback(OnlyExitEvict(ev.clone())).set_ignore_internal_cost(true).finalize().unwrap();
+        c.insert(1, 100, 1); c.wait().unwrap();
+        let r = c.insert(2, 200, 50); c.wait().unwrap();
+        let log = ev.lock().unwrap().clone();
+        if r && log != vec![Ev::Exit(Some(200))] {
+            fail("provided_callback_methods_route_to_on_exit", "C08:callback.provided-on_reject-is-not-an-eviction", &["C08"], "CacheCallback::on_reject",
+                 "Cache(max_cost=10, callback overriding on_exit+on_evict); insert(1,100,cost 1); wait(); insert(2,200,cost 50) -> true; wait()".into(), format!("callbacks seen: {:?}", log), "[Exit(Some(200))]".into());
+        }
+        let _ = c.close();
+        // eviction with a callback that overrides on_exit + on_reject only
+        let ev = Arc::new(StdMutex::new(Vec::new()));
+        let c: Cache<u64, u64, TransparentKeyBuilder<u64>, crate::DefaultCoster<u64>, crate::DefaultUpdateValidator<u64>, OnlyExitReject> = Cache::builder(200, 10)
+            .set_key_builder(TransparentKeyBuilder::<u64>::default()).set_callback(OnlyExitReject(ev.clone())).set_ignore_internal_cost(true).finalize().unwrap();
+        c.insert(1, 100, 6); c.wait().unwrap();
+        c.insert(2, 200, 6); c.wait().unwrap();   // needs room: key 1 (never looked up, as popular as the newcomer) is evicted
+        let log = ev.lock().unwrap().clone();
+        let resident1 = c.get(&1).is_some();
+        if !resident1 && log != vec![Ev::Exit(Some(100))] {
+            fail("provided_callback_methods_route_to_on_exit", "C08:callback.provided-on_evict-is-not-a-rejection", &["C08"], "CacheCallback::on_evict",
+                 "Cache(max_cost=10, callback overriding on_exit+on_reject); insert(1,100,cost 6); wait(); insert(2,200,cost 6); wait()".into(), format!("callbacks seen: {:?}", log), "[Exit(Some(100))]".into());
+        }
+        let _ = c.close();
+    });
+}
+
 /// Probe for a schedule-dependent defect (DESIGN.md F10): `clear()` only *signals* the processor; if the processor has not yet
 /// consumed the signal when the caller's next insert is queued, the cleaner discards that insert (hands it to on_evict).
 #[test]
